@@ -50,7 +50,7 @@ func (o *noArgFunctionOperator) Explain() (me string, next []model.VectorOperato
 
 func (o *noArgFunctionOperator) Series(ctx context.Context) ([]labels.Labels, error) {
 	// A scalar is a single series without labels; its samples carry ID 0.
-	return []labels.Labels{{}}, nil
+	return make([]labels.Labels, 1), nil
 }
 
 func (o *noArgFunctionOperator) GetPool() *model.VectorPool {
